@@ -246,6 +246,8 @@ def stmt_calls(ctx: Ctx, fi: FuncInfo):
         for r in roots:
             for c in ast.walk(r):
                 if isinstance(c, ast.Call):
+                    if any(c is c0 for _, c0, _ in out):
+                        continue      # a loop that runs at least once has two header nodes for one statement
                     try:
                         out.append((n, c, cn.expr(c)))
                     except Exception:
